@@ -15,7 +15,10 @@ Recipe (JSON):
            operand = ["b", k] whole L1 alloc | ["a", k] whole argument | ["v", k] view k
                      | ["x", k] pool value k as scalar index input (linalg.generic, not first input)
   post     ops after the loop (operands "a"/"b" only)
-  tail     (near-shape sub only) deviation from the recognised shape, see build()
+  tail     (shape sub only) one deviation from the recognised shape:
+           ["mid-index", s, "before"|"after"] an index computation before / after the ops of stage s (s >= 1: after a barrier),
+           ["double-sync", s] a second barrier after stage s, ["no-last-sync"], ["trailing-op", op] a stage op after the last barrier,
+           ["iter-arg"] the loop carries an index counter (iter_args) that selects the source tile
 The loop body is: idx ops, views, then the stages, each followed by snax.cluster_sync_op.
 Every stage op carries c15.tag = "s<stage>o<k>"; every alloc carries c15.buf = "b<k>" (survives cloning).
 """
@@ -85,8 +88,15 @@ def build(rc) -> Built:
         lines.append(f'  %ub = "arith.constant"() <{{value = {rc["ub"]} : index}}> : () -> index')
         ubn = "%ub"
     lines.append(f'  %step = "arith.constant"() <{{value = {rc["step"]} : index}}> : () -> index')
-    lines.append(f'  "scf.for"(%lb, {ubn}, %step) ({{')
-    lines.append("  ^bb1(%i: index):")
+    tail = rc.get("tail")
+    carried = bool(tail) and tail[0] == "iter-arg"
+    if carried:
+        # the loop carries a counter %k (0, 1, 2, ...) that selects the source tile instead of %i
+        lines.append(f'  %res = "scf.for"(%lb, {ubn}, %step, %c0) ({{')
+        lines.append("  ^bb1(%i: index, %k: index):")
+    else:
+        lines.append(f'  "scf.for"(%lb, {ubn}, %step) ({{')
+        lines.append("  ^bb1(%i: index):")
 
     pool = ["%i"] + [f"%c{c}" for c in range(NCONST)]
     body = []
@@ -100,9 +110,13 @@ def build(rc) -> Built:
         pool.append(f"%x{n}")
         feats.add("idx:" + op)
 
+    if carried:
+        body.append('    %k2 = "arith.addi"(%k, %c1) : (index, index) -> index')
     vinfo = []  # (ssa, type, rows)
     for n, (bk, k, ref, r) in enumerate(rc.get("views", [])):
         row = pool[ref % len(pool)]
+        if carried and n == 0:
+            row = "%k"
         if bk == "G":
             if not (0 <= k < nG):
                 raise BadRecipe("view of unknown global")
@@ -204,27 +218,36 @@ def build(rc) -> Built:
     stages = rc["stages"]
     if len(stages) != S:
         raise BadRecipe("stage count")
-    tail = rc.get("tail")
+    MID = '    %tl = "arith.addi"(%i, %c1) {c15.tail} : (index, index) -> index'
     for s, ops in enumerate(stages):
         if not ops:
             raise BadRecipe("empty stage")
+        if tail and tail[0] == "mid-index" and tail[1] == s and tail[2] == "before":
+            body.append(MID)  # an index computation after the barrier of stage s-1, before the ops of stage s
         for k, op in enumerate(ops):
             tag = f"s{s}o{k}"
             stage_tags[tag] = s
             emit_op(op, tag, body)
-        if tail and tail[0] == "mid-index" and tail[1] == s:
-            # an index-like op between two stages: not the recognised shape
-            body.append(f'    %tl = "arith.addi"(%i, %c1) {{c15.tail}} : (index, index) -> index')
+        if tail and tail[0] == "mid-index" and tail[1] == s and tail[2] == "after":
+            body.append(MID)  # ... between the ops of stage s and its barrier
         if tail and tail[0] == "no-last-sync" and s == S - 1:
             continue
         body.append('    "snax.cluster_sync_op"() : () -> ()')
+        if tail and tail[0] == "double-sync" and tail[1] == s:
+            body.append('    "snax.cluster_sync_op"() : () -> ()')
     if tail and tail[0] == "trailing-op":
         # a stage op after the last barrier
         stage_tags["tl"] = S
         emit_op(tail[1], "tl", body)
+    if tail:
+        feats.add("tail:" + tail[0])
     lines.extend(body)
-    lines.append('    "scf.yield"() : () -> ()')
-    lines.append("  }) : (index, index, index) -> ()")
+    if carried:
+        lines.append('    "scf.yield"(%k2) : (index) -> ()')
+        lines.append("  }) : (index, index, index, index) -> index")
+    else:
+        lines.append('    "scf.yield"() : () -> ()')
+        lines.append("  }) : (index, index, index) -> ()")
     post = []
     for k, op in enumerate(rc.get("post", [])):
         emit_op(op, f"post{k}", post, in_loop=False)
@@ -352,7 +375,7 @@ def loop_recipe(draw, tier="quick"):
             ins = [pick(src_default)]
             if rare(3):
                 ins.append(pick(None, side_ro))  # a second, read-only input (weights)
-            if kind == "gen" and rare(14):
+            if kind == "gen" and rare(29):
                 ins.append(["x", draw(st.sampled_from([0] + list(range(1 + NCONST, npool))))])  # index-dependent scalar
             outs = [pick(dst_default)]
             if rare(6):
@@ -382,6 +405,31 @@ def loop_recipe(draw, tier="quick"):
     canon = True if (lb, step) != (0, 1) else draw(st.booleans())
     return dict(S=S, lb=lb, ub=ub, step=step, ub_dyn=ub_dyn, canon=canon, nG=nG, args=args, l1=l1, idx=idx, views=views,
                 stages=stages, post=post)
+
+
+@st.composite
+def shape_recipe(draw, tier="quick"):
+    """a plain producer/consumer chain (always accepted when well-formed) with one deviation from the recognised shape"""
+    S = draw(st.sampled_from([3, 2, 4]))
+    trip = draw(st.integers(S - 1, 6))
+    kinds = [draw(st.sampled_from(["copy", "gen"])) for _ in range(S)]
+    views = [["G", 0, 0, 1], ["G", 1, 0, 1], ["G", 2, 0, 1]]
+    stages = []
+    for s in range(S):
+        src = ["v", 0] if s == 0 else ["b", s - 1]
+        dst = ["v", 1] if s == S - 1 else ["b", s]
+        stages.append([["copy", src, dst]] if kinds[s] == "copy" else [["gen", [src], [dst], False]])
+    k = draw(st.sampled_from(["mid-index", "mid-index", "mid-index", "double-sync", "no-last-sync", "trailing-op", "iter-arg"]))
+    if k == "mid-index":
+        tail = [k, draw(st.integers(0, S - 1)), draw(st.sampled_from(["before", "after"]))]
+    elif k == "double-sync":
+        tail = [k, draw(st.integers(0, S - 1))]
+    elif k == "trailing-op":
+        tail = [k, ["copy", ["v", 0], ["v", 2]]]
+    else:
+        tail = [k]
+    return dict(S=S, lb=0, ub=trip, step=1, ub_dyn=False, canon=False, nG=3, args=[], l1=[1] * (S - 1), idx=[], views=views,
+                stages=stages, post=[], tail=tail)
 
 
 # ------------------------------------------------------------------------------------ finite grid
